@@ -14,6 +14,24 @@ claimed = {
  "C17": ("exploration", "DESIGN.md §4 C17",
    "Seeded interleavings of 2-10 concurrent calls at I/O points and at access probes inserted into a scratch copy of the generated code; three oracles: each call equals the same call executed alone, no unordered conflicting access (vector-clock happens-before detector), client-visible history linearizable (porcupine).",
    "deterministic simulation: seeded interleavings + solo-run isolation oracle + vector-clock race detection + porcupine"),
+ "C02": ("exploration", "DESIGN.md §4 C02",
+   "A contract client (built from the published contract, not from generated client code) emits raw requests for every verb x body shape x codec x URL value class over the simulated link into the Go and TS servers; oracle = reference binding model (URL-bound fields from the URL + body fields, or 400 naming the field and no dispatch).",
+   "deterministic simulation: contract client over the simulated link, reference binding model as oracle"),
+ "C03": ("exploration", "DESIGN.md §4 C03",
+   "Full delivery matrix: three kinds of client (generated Go, generated TS, a client that only knows the emitted OpenAPI document) x two servers (Go, TS) run against each other over the simulated link for every sampled RPC; request lines are compared with each other and with the document, TS route descriptors and parameter placement are cross-checked, exactly one operation per RPC.",
+   "deterministic co-simulation: client x server delivery matrix (Go, TS in Node, OpenAPI-driven) + document cross-check"),
+ "C08": ("exploration", "DESIGN.md §4 C08",
+   "The generated TS modules run unmodified in Node 22 behind a lock-step bridge on the same simulated link as the Go nodes; TS->Go, Go->TS and TS->TS calls are checked by the delivery oracle on the contract JSON form, header helper options and AbortSignal included; module load is boot admission.",
+   "deterministic co-simulation of generated TS and Go code over the simulated link, delivery oracle"),
+ "C09": ("exploration", "DESIGN.md §4 C09",
+   "Raw requests with explicit header sets (absent / empty / valid / unambiguously invalid per declared type and format, case variants, service x method merge) and a body that arrives late through an instrumented stream; oracle = reference header model: one violation per offending header, no dispatch, zero body reads before the decision, never rejected for valid headers; Go and TS servers.",
+   "deterministic simulation: contract client with raw header sets, delayed instrumented body stream, reference header model"),
+ "C10": ("exploration", "DESIGN.md §4 C10",
+   "Scripted application-handler and error-hook nodes produce every documented error source; Go, TS and contract clients observe; oracle = the documented table (status, content type mirrors the request, body decodes to the expected message, hook overrides) and the client-side error value.",
+   "deterministic simulation: scripted handler/hook nodes, documented error table as oracle, client-side error mapping"),
+ "C20": ("exploration", "DESIGN.md §4 C20",
+   "The generated mock implementation backs the generated server; its randomness (rand.Intn, crypto/rand incl. failure) and clock are supplied by the plan through a seam in the scratch copy; repeated and interleaved calls; oracle = no error for valid requests, served and decoded equal in JSON and protobuf, example-bearing fields take a parsed example for every random choice; building the mock is boot admission.",
+   "deterministic simulation: seam on the generated mock's randomness/clock, repeated interleaved invocations, example-membership oracle"),
 }
 na = {
  "C04": "pure function of (schema, value): MarshalJSON/UnmarshalJSON round trip has no schedule, clock, peer or fault that could change its truth value; deterministic simulation would only be input generation in costume (DESIGN.md §5)",
@@ -28,12 +46,6 @@ na = {
  "C19": "equivalence of buf.validate rules and OpenAPI keywords is a relation between two acceptance sets, both pure (DESIGN.md §5)",
 }
 pending = {
- "C02": "check under construction in this session (will be claimed: deterministic simulation, contract client)",
- "C03": "check under construction in this session",
- "C08": "check under construction in this session (TS co-simulation bridge)",
- "C09": "check under construction in this session",
- "C10": "check under construction in this session",
- "C20": "check under construction in this session",
 }
 import sys
 extra = json.load(open("manifest_extra.json")) if len(sys.argv) > 1 else {}
